@@ -50,7 +50,7 @@ class QuantSuite(Suite):
             "group, spanning two groups (shared), partly or wholly unknown; PEPs on a dyadic grid incl. ties, match-between-runs rows "
             "(NaN PEP), the same (peptide, charge) identified in one row and not in another, modified forms; intensities multiples of 1024 "
             "(float sums exact), NaN and empty intensity cells; label-free, SILAC 2 / 3 channels or TMT 1 / 2 channels; proteins missing from the iBAQ table; "
-            "PSM-level FDR 0.01 / 0.05 / 1; non-trivial = a row discarded as shared or unknown, a precursor dropped by the identified filter, and >= 2 groups with precursors")
+            "PSM-level FDR 0.01 / 0.05 / 1; a quarter of the inputs with an experimental design whose experiments are listed in an order that is not the sorted one; non-trivial = a row discarded as shared or unknown, a precursor dropped by the identified filter, and >= 2 groups with precursors")
 
     def gen(self, rng, tier):
         for _ in range(core.tier_n(tier, 700, 12000)):
@@ -90,8 +90,15 @@ class QuantSuite(Suite):
             ibaq = {p: rng.choice([0, 1, 2, 3, 5, 7, 12]) for p in prots}
             if rng.random() < 0.04 and known:
                 del ibaq[rng.choice(known)]
-            yield {"groups": groups, "rows": rows, "ibaq": ibaq, "silac": silac, "fdr": rng.choice([0.01, 0.05, 0.05, 1.0]),
-                   "tmt": self.tmt_choice(rng, silac)}
+            case = {"groups": groups, "rows": rows, "ibaq": ibaq, "silac": silac, "fdr": rng.choice([0.01, 0.05, 0.05, 1.0]),
+                    "tmt": self.tmt_choice(rng, silac)}
+            if rng.random() < 0.25:
+                # an experimental design: raw files assigned to experiments whose names do NOT sort in the order they are listed
+                # (E2 before E10, B before A): the per-experiment columns follow the design's order
+                names = rng.choice([["E2", "E10", "E1"], ["B", "A", "C"], ["s10", "s9", "s1"], ["same", "same", "other"]])
+                case["design"] = [["raw_" + e, names[i]] for i, e in enumerate(exps)]
+                rng.shuffle(case["design"])
+            yield case
 
     def tmt_choice(self, rng, silac):
         return rng.choice([0, 0, 0, 1, 2]) if silac == 0 else 0
@@ -140,7 +147,12 @@ class QuantSuite(Suite):
         fdr.calc_post_err_prob_cutoff = rec
         try:
             try:
-                pgr, peps = mq_quant.add_precursor_quants([ev], None, pg, pgr, [None], None, True, st, True)
+                design = None
+                if case.get("design"):
+                    import pandas as pd
+                    design = pd.DataFrame({"Name": [x[0] for x in case["design"]], "Condition": [x[1] for x in case["design"]],
+                                           "Experiment": [x[1] for x in case["design"]], "Fraction": [1] * len(case["design"])})
+                pgr, peps = mq_quant.add_precursor_quants([ev], None, pg, pgr, [None], design, True, st, True)
                 attached = {r.proteinIds: sorted(p.evidence_id for p in r.precursorQuants) for r in pgr}
                 W().append_quant_columns(pgr, peps, case["fdr"])
             except Exception as e:
@@ -157,13 +169,17 @@ class QuantSuite(Suite):
     def render(self, case, out):
         ns = max(0, out.get("nsilac", case["silac"] if out["parsed"] else 0))
         rows = []
+        dmap = dict(case.get("design") or [])
         for (pe, pr, ch, raw, ex, fr, it, pp, tmt, sil, eid) in out["parsed"]:
+            ex = dmap.get(raw, ex) if dmap else ex       # the experiment a raw file is assigned to is a fact of the INPUT (the design)
             rows.append(cpair(cstr(pe), clist(cstr(p) for p in pr), cZ(ch), cstr(ex), copt(None if nan(it) else cQ(fq(it))),
                               copt(None if nan(pp) else cQ(fq(pp))), clist(cQ(fq(float(x))) for x in sil),
                               clist(cQ(fq(float(x))) for x in tmt), cZ(eid)))
         cuts = clist(cpair(clist(cQ(fq(x)) for x in k), cQ(fq(v))) for k, v in out["cutoffs"])
+        dexps = list(dict.fromkeys(x[1] for x in case["design"])) if case.get("design") else None
         cin = cpair(clist(cpair(cstr(k), cnat(v)) for k, v in case["ibaq"].items()), cuts, cnat(ns),
-                    clist(clist(cstr(p) for p in g) for g in case["groups"]), clist(rows))
+                    clist(clist(cstr(p) for p in g) for g in case["groups"]), clist(rows),
+                    copt(None if dexps is None else clist(cstr(e) for e in dexps)))
         if getattr(self, "tmt_only", False):
             # the TMT reporter cells of every written row (they follow the evidence ids)
             if "raise" in out:
